@@ -10,10 +10,14 @@ STATUSES = ["Equal", "Fixed", "Different", "Failed", "EqualizerFailure"]
 VERDICT_BEH = ["equal", "different", "player_raises", "extractor_raises", "comparator_raises",
                "bare:Fixed", "bare:Failed", "bare:Equal", "bare:EqualizerFailure"]
 PROCESS_BEH = ["exit0", "exit1", "hang", "hang_deaf", "slow:1", "slow:2", "slow:3", "slow:4", "slow:5"]
+# the answer reaches the parent but cannot be used: the parent's get() raises while loading it / the worker's put of
+# its result raised and the worker loop answered (False, message).  The worker stays in place; dedicated mode only
+# (in-process there is no queue: the replay is an Equal one)
+ANSWER_BEH = ["unloadable", "put_raises"]
 F08_BEH = ["late", "dies_before", "drops"]          # known finding F08 (queues shared by successive workers): probe streams only
 
 MSGS = {"none": "MNone", "cmp": "MCmp", "player": "MPlayer", "extractor": "MExtractor", "comparator": "MComparator",
-        "died": "MDied", "timeout": "MTimeout"}
+        "died": "MDied", "timeout": "MTimeout", "unload": "MUnload", "refused": "MRefused"}
 OUTCOMES = {"completed": "Completed", "closed": "Completed", "consumer-raised": "Completed", "iter-raised": "Completed",
             "deadlock": "Deadlock", "abort-exit": "AbortExit", "blocks": "Blocks"}
 STATE_CODE = {"idle": 0, "busy": 1, "hung": 2, "dead:exit": 3, "dead:before": 4, "dead:killed": 5, "dead:terminated": 6}
@@ -49,6 +53,10 @@ def g_beh(b):
         return "BDrops"
     if b == "dies_before":
         return "BDiesBefore"
+    if b == "unloadable":
+        return "(BBadAnswer Unloadable)"
+    if b == "put_raises":
+        return "(BBadAnswer Refused)"
     raise ValueError(b)
 
 
@@ -143,7 +151,11 @@ def has(case, names):
 
 
 def f08_sig(case):
-    """signature under which a locality failure of this case is a known finding (None: it is not)"""
+    """signature under which a locality failure of this case is a known finding (None: it is not); only in the F08
+    probe streams - since the repair (fresh queues per worker) late answers, idle deaths and lost answers are
+    ordinary behaviours and other streams use them under the plain signatures"""
+    if case.get("probe") != "F08":
+        return None
     if has(case, ["late"]):
         return "F08-late-answer"
     if has(case, ["dies_before"]):
@@ -169,6 +181,11 @@ def fatal_dedicated(b, timeout):
     return False
 
 
+def mode_neutral(b, timeout):
+    """does this behaviour yield the same comparison in dedicated and in in-process mode (property's expectation)?"""
+    return expected_status(b, True, timeout) is not None and not fatal_dedicated(b, timeout) and b not in ANSWER_BEH
+
+
 def expected_status(b, dedicated, timeout):
     """the property's own expectation of the verdict of one recording; None = not determined by the property"""
     if b.startswith("bare:"):
@@ -181,6 +198,8 @@ def expected_status(b, dedicated, timeout):
         return "Equal"
     if not dedicated:
         return None if b in ("exit0", "exit1", "hang", "hang_deaf") else "Equal"
+    if b in ANSWER_BEH:
+        return "EqualizerFailure"
     f = fatal_dedicated(b, timeout)
     if f is None:
         return None
@@ -211,6 +230,8 @@ def features(case):
                 f.add("consecutive-faults")
             if case["rate"] >= 1 and (k + 1) % case["rate"] == 0:
                 f.add("fault-near-recycle-boundary")
+    if case.get("kill_idle_after"):
+        f.add("idle-worker-killed-by-a-third-party")
     if case.get("probe"):
         f.add("probe:" + case["probe"])
     return f
